@@ -100,6 +100,15 @@ def ed25519_cert_blob(ca_blob, seed=1):
     return cert_blob(b'ssh-ed25519-cert-v01@openssh.com', sstr(bytes((seed + i) % 256 for i in range(32))), ca_blob)
 
 
+def sk_ed25519_blob(seed=1, application=b'ssh:'):
+    """FIDO/U2F-backed Ed25519 public key (PROTOCOL.u2f): string type, string pk, string application."""
+    return sstr(b'sk-ssh-ed25519@openssh.com') + sstr(bytes((seed + 3 * i) % 256 for i in range(32))) + sstr(application)
+
+
+def sk_ed25519_cert_blob(ca_blob, seed=1, application=b'ssh:'):
+    return cert_blob(b'sk-ssh-ed25519-cert-v01@openssh.com', sstr(bytes((seed + 3 * i) % 256 for i in range(32))) + sstr(application), ca_blob)
+
+
 def kexdh_reply(blob, msg=31):
     return bytes([msg]) + sstr(blob) + sstr(bytes(32)) + sstr(sstr(b'ssh-ed25519') + sstr(bytes(64)))
 
